@@ -1,5 +1,6 @@
 import RR.Model.RingDriver
 import RR.Model.WaitDriver
+import RR.Model.CodecDriver
 import RR.Model.FileSinkDriver
 import RR.Model.HdlcDriver
 import RR.Model.BlockDriver
@@ -21,6 +22,9 @@ def dispatch (line : String) : String :=
   | "repeat" :: rest => BlockDriver.handleRepeat (" ".intercalate rest)
   | "hdlc" :: rest => HdlcDriver.handle (" ".intercalate rest)
   | "fsink" :: rest => FileSinkDriver.handle (" ".intercalate rest)
+  | "codec" :: rest => CodecDriver.handleCodec (" ".intercalate rest)
+  | "reasm" :: rest => CodecDriver.handleReasm (" ".intercalate rest)
+  | "sigmf" :: rest => CodecDriver.handleSigmf (" ".intercalate rest)
   | "wait" :: rest => WaitDriver.handle (" ".intercalate rest)
   | _ => "bad-model"
 
